@@ -223,9 +223,9 @@ def finish(prop, tier, seed, level, ctx, t0, coverage_extra=None, assumptions=No
     }
     with open(os.path.join(EVID, prop + '.json'), 'w') as f:
         json.dump(ev, f, indent=1, ensure_ascii=False)
-    if ctx.errors:
-        return 2
-    return 1 if out_viol else 0
+    if out_viol:
+        return 1
+    return 2 if ctx.errors else 0
 
 # ------------------------------------------------------------------ reject / accept batches (C12, C13, C14, ...)
 def stage_batch(name, cases, version=1):
@@ -251,7 +251,7 @@ def stage_batch(name, cases, version=1):
                     f.write('[package]\nname = "b_%s"\nversion = "0.0.0"\nedition = "2021"\n[dependencies]\nenum-tools = { path = "%s" }\n[workspace]\n' % (kind, X.REPO))
                 shutil.copy(os.path.join(X.REPO, 'Cargo.lock'), os.path.join(cdir, 'Cargo.lock'))
                 p = X.run_cargo(cdir, ['check', '--offline', '--message-format=json'], toolchain='+nightly',
-                                env_extra={'CARGO_TARGET_DIR': os.path.join(ws, 'target'), 'RUSTFLAGS': '-Awarnings'})
+                                env_extra={'CARGO_TARGET_DIR': X.shared_target(), 'RUSTFLAGS': '-Awarnings'})
                 meta[kind] = {'rc': p.returncode, 'stderr_tail': p.stderr[-1500:]}
                 for c in cs:
                     res[c['id']] = {'errors': []}
@@ -323,3 +323,52 @@ def judge_batch(ctx, cases, r, prop, construct_of=None):
     if meta.get('accept', {}).get('rc', 0) != 0 and not any(res.get(c['id'], {}).get('errors') for c in cases if c['expect'] == 'accept'):
         ctx.error('accept batch failed to compile without an attributable error: %s' % meta['accept']['stderr_tail'][-600:])
     return n_ok
+
+# ------------------------------------------------------------------ the generator's own MIR
+def stage_gmir():
+    st = X.Stage('gmir-v1')
+    def build(out):
+        ws = X.scratch_dir('gmir')
+        try:
+            rc, err, diags = X.run_driver(ws, os.path.join(out, 'facts'), manifest=os.path.join(X.REPO, 'Cargo.toml'))
+            if rc != 0 or not os.path.exists(os.path.join(out, 'facts', 'enum_tools.json')):
+                with open(os.path.join(out, 'error.txt'), 'w') as f:
+                    f.write(err[-4000:])
+        finally:
+            shutil.rmtree(ws, ignore_errors=True)
+    d = st.ensure(build)
+    return st, d
+
+
+# ------------------------------------------------------------------ expansions of the family instances (C18, C10)
+def stage_expand(tier, seed):
+    """-Zunpretty=expanded of the family instances, split per module into normalised item token strings"""
+    insts = [x for x in I.build(tier, seed) if 'family' in x]
+    st = X.Stage('expand-%s-%d-%s' % (tier, seed, hashlib.sha256(json.dumps(insts, sort_keys=True).encode()).hexdigest()[:12]))
+    def build(out):
+        ws = X.scratch_dir('expand')
+        try:
+            I.write_workspace(ws, insts, repo=X.REPO, shards=4, crate_prefix='f')
+            mods = {}
+            errs = []
+            for c in sorted({x['crate'] for x in insts}):
+                p = X.run_cargo(ws, ['rustc', '--offline', '-p', c, '--lib', '--', '-Zunpretty=expanded', '-Awarnings'], toolchain='+nightly',
+                                env_extra={'CARGO_TARGET_DIR': X.shared_target()})
+                if p.returncode != 0:
+                    errs.append({'crate': c, 'stderr': p.stderr[-2000:]})
+                    continue
+                fp = os.path.join(ws, c + '.expanded.rs')
+                with open(fp, 'w') as f:
+                    f.write(p.stdout)
+                q = X.sh([X.TMPLX, '--expanded', fp])
+                if q.returncode != 0:
+                    errs.append({'crate': c, 'stderr': 'tmplx: ' + q.stderr[-1500:]})
+                    continue
+                mods.update(json.loads(q.stdout))
+            with open(os.path.join(out, 'expanded.json'), 'w') as f:
+                json.dump({'mods': mods, 'errors': errs, 'instances': insts}, f)
+        finally:
+            shutil.rmtree(ws, ignore_errors=True)
+    d = st.ensure(build)
+    with open(os.path.join(d, 'expanded.json')) as f:
+        return st, json.load(f)
